@@ -1,7 +1,7 @@
 #!/bin/bash
 # usage: seedverify.sh <ID> <name>   — confirm a sub-agent's seeded change in its scratch worktree, then store it under /verif/seeded/<name>/
 id=$1; name=$2
-wt=/tmp/seed-$id; out=/tmp/seed-$id.out
+wt=/tmp/${SEEDPFX:-seed}-$id; out=/tmp/${SEEDPFX:-seed}-$id.out
 dst=/verif/seeded/$name
 set -u
 cd $wt || exit 9
